@@ -232,10 +232,13 @@ func c19Body(c *c19Case, o *c19Obs) func() {
 			if o.capGauge != capacity {
 				o.violations = append(o.violations, fmt.Sprintf("queue capacity gauge reports %d, configured capacity is %d", o.capGauge, capacity))
 			}
-			// the size gauge against the queue's own Size() at the same instant (Size() itself is C02's subject)
+			// the size gauge against the queue's own Size() (Size() itself is C02's subject). The two cannot be read at the same
+			// instant under the scheduler, but after the last send the size only goes down, so gauge, Size(), gauge read in
+			// this order must be non-increasing
+			g1 := c19Counter(tt, "otelcol_exporter_queue_size")
 			if sz, ok := c19QueueSize(be.QueueSender); ok {
-				if g := c19Counter(tt, "otelcol_exporter_queue_size"); g != sz {
-					o.violations = append(o.violations, fmt.Sprintf("queue size gauge reports %d, the queue's size is %d", g, sz))
+				if g2 := c19Counter(tt, "otelcol_exporter_queue_size"); !(g1 >= sz && sz >= g2) {
+					o.violations = append(o.violations, fmt.Sprintf("queue size gauge reports %d, then the queue's size is %d, then the gauge reports %d (the size only decreases after the last send)", g1, sz, g2))
 				}
 			} else {
 				o.violations = append(o.violations, "harness: queue not reachable")
